@@ -1,5 +1,6 @@
 import XalanModel.C14.EngineProofs
 import XalanModel.C14.StackProofs
+import XalanModel.C14.AliasProofs
 import XalanModel.C14.Stylesheet
 /-!
 # C14 — result elements/attributes get the requested expanded names; prefixes resolve
@@ -650,7 +651,7 @@ theorem exec_nodup_both :
   refine exec.mutual_induct
     (motive_1 := fun env r i => NodupQ r.st → NodupQ (exec env r i).st)
     (motive_2 := fun env r b is => NodupQ r.st → NodupQ (execList env r b is).st)
-    ?_ ?_ ?_ ?_ ?_ ?_ ?_ ?_ ?_ ?_ ?_ ?_ ?_ ?_ ?_ ?_ ?_ ?_
+    ?_ ?_ ?_ ?_ ?_ ?_ ?_ ?_ ?_ ?_ ?_ ?_ ?_ ?_ ?_ ?_ ?_ ?_ ?_ ?_
   all_goals (try dsimp only)
   · intro env r h; unfold exec; exact pending_attrs_nodup_qname [.characters] _ h
   · intro env r name ns value h; unfold exec
@@ -667,6 +668,13 @@ theorem exec_nodup_both :
   · intro env r ks h
     unfold exec
     exact nq_execSets env ks r h
+  · intro env r k body stk th hk ih h
+    unfold exec
+    simp only [hk]
+    exact ih h
+  · intro env r k body hk h
+    unfold exec
+    simp only [hk]; exact h
   · intro env r name nsdecls atts excl use body hnone h
     unfold exec
     simp only [hnone]; exact h
@@ -963,6 +971,56 @@ example :
     let s := run { v := { xmlPrefixExact := true, ownPrefixDecl := true } } [.elemElementStart ⟨"", "f"⟩ none none none ""]
     (s.elemAttribute ⟨"xmlq", "a"⟩ none (some "urn:b") "v").1.pendAtts = [⟨⟨"xmlns", "xmlq"⟩, "urn:b"⟩, ⟨⟨"xmlq", "a"⟩, "v"⟩] ∧
       (s.elemAttribute ⟨"xml", "x"⟩ (some "urn:c") none "v").1.pendAtts = [⟨⟨"xmlns", "ns0"⟩, "urn:c"⟩, ⟨⟨"ns0", "x"⟩, "v"⟩] := by
+  decide
+
+
+/-! ## namespace aliases across the import tree -/
+
+/-- `NamespacesHandler::overrideNamespaceAliases` has **assignment** semantics: whatever the imported module declared, after
+the push-down every alias of the importing module is in force there (`insert` instead of `operator[]=` — the seeded break —
+falsifies the code side of this; the translator checks the source text, the correspondence run the behaviour). -/
+theorem alias_override_assigns (imported importer : Table) (u v : String)
+    (hk : (importer.map (·.1)).Nodup) (h : Table.lookup importer u = some v) :
+    Table.lookup (tblOverride imported importer) u = some v := by
+  rw [lookup_tblOverride _ _ _ hk, h]; rfl
+
+/-- `copyNamespaceAliases` has **insert** semantics: what the destination already has is kept -/
+theorem alias_copy_keeps (dst src : Table) (u v : String) (h : Table.lookup dst u = some v) :
+    Table.lookup (tblCopy dst src) u = some v := by
+  rw [lookup_tblCopy, h]; rfl
+
+/-- **the alias with the highest import precedence wins** (XSLT 1.0 §7.1.1), for import trees of any depth and width:
+(i) the table `Stylesheet::collectNamespaceAliases` builds for a module answers, for every namespace URI, with the
+declaration of highest import precedence in that module's import tree (`ATree.spec`: the module itself before what it
+imports, a later import before an earlier one); (ii) a module anywhere below that is handed this table by
+`overrideNamespaceAliases` ends with exactly the same answers, whatever it or its imports declare. -/
+theorem alias_highest_precedence_wins (root : ATree) (u : String) :
+    Table.lookup root.collect u = root.spec u ∧
+      ∀ (c : ATree), (∀ w, c.spec w ≠ none → root.spec w ≠ none) → ((root.collect).map (·.1)).Nodup →
+        Table.lookup (tblOverride c.collect root.collect) u = root.spec u := by
+  refine ⟨(collect_eq_spec u).1 root, ?_⟩
+  intro c hcov hk
+  exact pushdown_keeps_spec root.collect (fun w => root.spec w) (fun w => (collect_eq_spec w).1 root) hk c hcov u
+
+/-- a three-level tree with competing and chained aliases: main `a↦m`; first import `a↦x, b↦c` importing a module with
+`a↦y, d↦e`; second import `b↦z, c↦k`.  Highest precedence: `a↦m` (main), `b↦z` (later import), `c↦k`, `d↦e`. -/
+example :
+    let t := ATree.node [("a", "m")]
+      [ATree.node [("a", "x"), ("b", "c")] [ATree.node [("a", "y"), ("d", "e")] []],
+       ATree.node [("b", "z"), ("c", "k")] []]
+    (["a", "b", "c", "d", "q"].map (fun u => t.spec u)) = [some "m", some "z", some "k", some "e", none] ∧
+      (["a", "b", "c", "d", "q"].map (Table.lookup t.collect)) = [some "m", some "z", some "k", some "e", none] := by
+  decide
+
+/-- the executable (flattened, fuel-driven) model used by the driver computes the same tables on that tree: with the
+collect-first repair every module ends with the precedence table; the code before it gives the first import the table
+`a↦m, b↦c` (it never sees `b↦z` of the later import) -/
+example :
+    let mods : List Module := [⟨0, [], [], []⟩, ⟨0, [], [], []⟩, ⟨1, [], [], []⟩, ⟨0, [], [], []⟩]
+    let own : List Table := [[("a", "m")], [("a", "x"), ("b", "c")], [("a", "y"), ("d", "e")], [("b", "z"), ("c", "k")]]
+    ((postAliases mods true 5 0 own).map (fun t => ["a", "b", "c", "d"].map (Table.lookup t)))
+        = List.replicate 4 [some "m", some "z", some "k", some "e"] ∧
+      ((postAliases mods false 5 0 own).getD 1 []).lookup "b" = some "c" := by
   decide
 
 end XalanModel.Props.C14
